@@ -781,6 +781,7 @@ WITNESS_MAP = [
     ("_HtmlTreeBuilder.", "html.source", None, None),
     ("_XhtmlTextExtractor.handle_endtag/ensures#buffered-chunks", "epub.tables", None, None),
     ("_XhtmlTextExtractor.handle_endtag/ensures#closed-cell", "epub.tables", None, None),
+    ("_XhtmlTextExtractor._normalize_ws/", "epub.tables", None, None),
     ("_XhtmlTextExtractor.", "epub.source", None, None),
     ("_extract_sheet/block#", "ods.sheet", None, None),
     ("plain_extractor.py::", "plain.decode", None, None),
